@@ -112,8 +112,9 @@ def oracle(cfg, out):
 
 def check(ctx: vlib.Ctx) -> int:
     rng = random.Random(ctx.seed)
-    ok = vlib.prove(ctx, ["Proofs/C19.vo"], gens=["Gen_analysis"])
-    ctx.tie.append("translator (Gen_analysis: class decision tree regenerated from /repo) + exhaustive correspondence through locate_droplets")
+    ok, fresh = vlib.prove_with_fallback(ctx, ["Proofs/C19.vo"], gens=["Gen_analysis"])
+    ctx.tie.append("exhaustive correspondence through locate_droplets against the "
+                   + ("regenerated" if fresh else "golden") + " class decision tree (Gen_analysis)")
     cases, meta, fails = [], [], []
     modes_list = [0, 1, 2, 3, 8]
     for (name, grid, cyl) in grids():
